@@ -335,7 +335,7 @@ End DONE.
 (* ============================================================== pool.go *)
 Module POOL.
   (* script op: o_code 0 = Get (o_a <> 0: the create callback panics if this Get calls it, o_b = gate
-     inside the create callback, o_c <> 0: the destroy callback panics if this Get calls it);
+     inside the create callback, o_c = 1: the destroy callback panics if this Get calls it; o_c = 2: it is slow: waits on gate 80 + id);
      1 = Put of the most recently obtained resource still held; 2 = Put(nil).
      Both callbacks run under p.lock; `defer p.lock.Unlock()` releases it when they panic. *)
   Inductive pc :=
@@ -415,10 +415,14 @@ Module POOL.
             match head s with
             | (r, lu) :: rest =>
                 if expired maxage lu (now s) then
-                  (* p.created--; p.destroy(head.item); continue -- or the callback's panic unwinds Get *)
+                  (* p.created--; p.destroy(head.item); continue -- or the callback's panic unwinds Get.
+                     The destroy callback may be slow (o_c = 2: it waits on gate 80 + r): Get sits in it, still
+                     holding p.lock, so nothing -- in particular no replacement -- is created meanwhile; the
+                     step completes when destroy returns *)
+                  if negb (gate_open (open s) (if Nat.eqb (t_dpan x) 2 then 80 + r else 0)) then None else
                   Some (mk (lock s) (created s - 1) rest (waiters s) (nextres s) (now s) (open s)
-                           (upd (ts s) t (setpc x (if Nat.eqb (t_dpan x) 0 then GLoop else GPanic)))
-                           (mkev t KEnd 3 r (now s) (if Nat.eqb (t_dpan x) 0 then 0 else 1) :: trace s)
+                           (upd (ts s) t (setpc x (if Nat.eqb (t_dpan x) 1 then GPanic else GLoop)))
+                           (mkev t KEnd 3 r (now s) (if Nat.eqb (t_dpan x) 1 then 1 else 0) :: trace s)
                            (upd (loc s) r 2) (ncreate s) (ndestroy s + 1) (nleak s))
                 else
                   Some (mk (lock s) (created s) rest (waiters s) (nextres s) (now s) (open s)
